@@ -300,7 +300,20 @@ func VerifH07e() {
 		vMsgBytes('D', vCat([]byte{'P'}, vCStr(p2))), sync,
 		vMsgBytes('E', vCat(vCStr(p3), vU32(0))), sync,
 	)
-	w := vNewWorld(input, 64+4*vParam("LONGNAME", 0))
+	// CUSTOMCACHES=1: the embedder may install caches of its own through the
+	// Statements/Portals options — here the simplest ones: types that embed the
+	// default caches (and so have everything they have, Close included)
+	var opts []OptionFn
+	if vParam("CUSTOMCACHES", 0) == 1 {
+		// (fewer free names in this configuration: the later Parse and the two
+		// Describes use the first statement's and portal's names)
+		vAssume(vAnd(vEqBytes(s4, s1), vAnd(vEqBytes(s2, s1), vEqBytes(p2, p1))))
+		opts = append(opts,
+			Statements(func() StatementCache { return &vEmbedStatements{&DefaultStatementCache{}} }),
+			Portals(func() PortalCache { return &vEmbedPortals{&DefaultPortalCache{}} }))
+		vReach("caches-installed-through-the-options")
+	}
+	w := vNewWorld(input, 64+4*vParam("LONGNAME", 0), opts...)
 	w.execMenu = 1
 	w.parseMenu = -1
 	step2 := func() string {
@@ -365,6 +378,9 @@ func VerifH07e() {
 		}
 	}
 }
+
+type vEmbedStatements struct{ *DefaultStatementCache }
+type vEmbedPortals struct{ *DefaultPortalCache }
 
 // ---------------------------------------------------------------------------
 // H07r — a Parse always (re)defines its name (C07): Parse s1 "q"; Close
